@@ -214,7 +214,8 @@ def run_engine(prop, tier, seed, extra_args=None):
         if os.path.exists(frag_path):
             os.remove(frag_path)
         cmd = [binary(cfg), "run", "--prop", prop, "--tier", tier, "--seed", str(seed),
-               "--threads", os.environ.get("FCV_THREADS", str(os.cpu_count() or 16)), "--replay-dir", REPLAYS, "--out", frag_path]
+               "--threads", os.environ.get("FCV_THREADS", str(os.cpu_count() or 16)), "--replay-dir", REPLAYS, "--out", frag_path,
+               "--hang-secs", os.environ.get("FCV_HANG_SECS", "120")]
         if extra_args:
             cmd += extra_args
         if os.environ.get("FCV_CASES"):
@@ -264,6 +265,17 @@ def run_engine(prop, tier, seed, extra_args=None):
                 sys.stdout.write(out)
                 print("INFRA: harness crashed (status %d) in configuration %s and the crash did not reproduce from the published case" % (p.returncode, cfg))
                 infra = True
+        elif p.returncode == 2 and prop == "C01" and "HANG property=" in out and confirm_hang(prop, cfg, out):
+            # C01: "no invocation of any waker ever handed out ... deadlocks". A case on
+            # which the library never returns, reproduced in isolation, is that violation.
+            path = [l.split("replay=", 1)[1].strip() for l in out.splitlines() if l.startswith("HANG property=")][0]
+            violations += 1
+            print("  a generated case made the library block forever (a poll, a drop or a waker invocation never returned); "
+                  "replaying that case alone blocks again: deadlock")
+            line = "VIOLATION property=%s replay=%s" % (prop, path)
+            print(line)
+            viol_lines.append(line)
+            frags.append({"config": cfg_label(cfg), "engine": "comb", "evaluations": 0, "distinct_nontrivial": 0, "hung": True, "rule": ""})
         elif p.returncode != 0:
             sys.stdout.write(out)
             print("INFRA: harness exited with status %d in configuration %s" % (p.returncode, cfg))
@@ -431,6 +443,21 @@ def miri_supplement(prop, seed):
             f.write("\n")
         info["miri_error"] = bad[1]
     return info, rp
+
+
+def confirm_hang(prop, b, out):
+    """The watchdog reported a case that made no progress for two minutes. Re-run
+    that case alone (normally microseconds) with a generous limit; only a second
+    hang counts."""
+    paths = [l.split("replay=", 1)[1].strip() for l in out.splitlines() if l.startswith("HANG property=")]
+    if not paths or not os.path.exists(paths[0]):
+        return False
+    try:
+        subprocess.run([binary(b), "replay", "--file", paths[0], "--prop", prop], env=env(), stdout=subprocess.DEVNULL,
+                       stderr=subprocess.DEVNULL, timeout=int(os.environ.get("FCV_HANG_CONFIRM_SECS", "60")))
+    except subprocess.TimeoutExpired:
+        return True
+    return False
 
 
 def cfg_label(b):
